@@ -80,6 +80,10 @@ func GenC01(r *h.Rng, tier string, emit func(string)) {
 		emit(genSbrkProgram(r).String())
 		st.Inc("sbrk-program")
 	}
+	for i := 0; i < nsbrk/3; i++ {
+		emit(genSkipTargetProgram(r).String())
+		st.Inc("skip-target-program")
+	}
 	h.EmitStats(emit, st)
 }
 
